@@ -187,6 +187,20 @@ class ArrayVal(Opaque):
     pass
 
 
+class StateVal(Opaque):
+    """A value read from a field of the instance (`self.<field>`, or anything reached from it): it was put there by
+    some earlier call, so it is not a function of the current arguments."""
+
+
+class GenVal(object):
+    """A generator object: the generator function's body is run (to completion) when it is first iterated."""
+
+    def __init__(self, thunk, guarded):
+        self.thunk = thunk
+        self.guarded = guarded      # mutable lists handed to the generator: the consumer must not touch them
+        self.items = None
+
+
 class ExcVal(object):
     def __init__(self, cls):
         self.cls = cls
@@ -427,6 +441,11 @@ class Interp(object):
         self.trace = []
         self.fuel = FUEL
         self.notes = []
+        self.state_reads = []      # instance fields read during the interpretation (all paths)
+        self.state_writes = []     # instance fields written
+        self._yields = []
+        self._guard = set()
+        self.followed = set()      # qualified names of package functions whose bodies were interpreted
 
     # ---------------------------------------------------------------- exploring
     def explore(self, thunk, limit=200):
@@ -468,6 +487,8 @@ class Interp(object):
             return self.decide(v.tag)
         if isinstance(v, bool) or v is None:
             return bool(v)
+        if isinstance(v, (list, dict)):
+            self._touch(v)
         if isinstance(v, (int, Fraction, str, list, tuple, dict, set)):
             return bool(v)
         if isinstance(v, Num):
@@ -488,12 +509,50 @@ class Interp(object):
     # ------------------------------------------------------------------- calling
     def call_function(self, fi, args, kwargs=None, depth=0, bound=None):
         node = fi.node
+        self.followed.add(fi.qualname)
+        if _is_generator(node):
+            guarded = {id(a) for a in list(args) + list((kwargs or {}).values()) if isinstance(a, (list, dict))}
+            return GenVal(lambda: self._run_generator(fi, args, kwargs, depth, bound), guarded)
         env = Env()
         self._bind(node.args, args, kwargs or {}, env, fi.module, fi, bound_self=bound, is_method=fi.cls is not None
                    and not fi.is_static)
         return self._run_body(node.body, env, fi.module, fi, depth)
 
+    def _run_generator(self, fi, args, kwargs, depth, bound):
+        env = Env()
+        self._bind(fi.node.args, args, dict(kwargs or {}), env, fi.module, fi, bound_self=bound,
+                   is_method=fi.cls is not None and not fi.is_static)
+        self._yields.append([])
+        saved, self._guard = self._guard, set()
+        try:
+            self._run_body(fi.node.body, env, fi.module, fi, depth)
+            return self._yields[-1]
+        finally:
+            self._yields.pop()
+            self._guard = saved
+
+    def _touch(self, obj):
+        if self._guard and id(obj) in self._guard:
+            raise AnalysisError('a list owned by a running generator is used by its consumer: lazy evaluation order not modelled')
+
     def call_closure(self, c, args, kwargs=None, depth=0):
+        if not isinstance(c.node, ast.Lambda) and _is_generator(c.node) and not getattr(self, '_in_gen', False):
+            guarded = {id(a) for a in list(args) + list((kwargs or {}).values()) if isinstance(a, (list, dict))}
+
+            def thunk():
+                self._yields.append([])
+                saved, self._guard = self._guard, set()
+                self._in_gen = True
+                try:
+                    env = Env(c.env)
+                    self._bind(c.node.args, args, dict(kwargs or {}), env, c.module, c.owner)
+                    self._run_body(c.node.body, env, c.module, c.owner, depth)
+                    return self._yields[-1]
+                finally:
+                    self._in_gen = False
+                    self._yields.pop()
+                    self._guard = saved
+            return GenVal(thunk, guarded)
         env = Env(c.env)
         self._bind(c.node.args, args, kwargs or {}, env, c.module, c.owner)
         if isinstance(c.node, ast.Lambda):
@@ -556,6 +615,12 @@ class Interp(object):
         if isinstance(s, ast.Expr):
             if isinstance(s.value, ast.Constant):
                 return
+            if isinstance(s.value, ast.Yield):
+                if not self._yields:
+                    raise AnalysisError('yield outside a generator call')
+                v = ev(s.value.value) if s.value.value is not None else None
+                self._yields[-1].append(v)
+                return
             ev(s.value)
             return
         if isinstance(s, ast.Assign):
@@ -591,14 +656,24 @@ class Interp(object):
             self.exec_block(s.orelse, env, module, owner, depth)
             return
         if isinstance(s, ast.For):
-            for item in self.iterate(ev(s.iter)):
-                self.assign(s.target, item, env, module, owner, depth)
-                try:
-                    self.exec_block(s.body, env, module, owner, depth)
-                except _Break:
-                    return
-                except _Continue:
-                    continue
+            it = ev(s.iter)
+            items = self.iterate(it)
+            saved = self._guard
+            if isinstance(it, GenVal):
+                self._guard = self._guard | it.guarded
+            try:
+                for item in items:
+                    self.assign(s.target, item, env, module, owner, depth)
+                    try:
+                        self.exec_block(s.body, env, module, owner, depth)
+                    except _Break:
+                        if isinstance(it, GenVal):
+                            raise AnalysisError('break out of a loop over a generator: lazy evaluation not modelled')
+                        return
+                    except _Continue:
+                        continue
+            finally:
+                self._guard = saved
             self.exec_block(s.orelse, env, module, owner, depth)
             return
         if isinstance(s, ast.Raise):
@@ -682,6 +757,14 @@ class Interp(object):
             if isinstance(obj, dict) and isinstance(key, (str, int)):
                 obj[key] = v
                 return
+            if isinstance(obj, StateVal):
+                self.state_writes.append(obj.text)
+                return
+        if isinstance(t, ast.Attribute):
+            obj = self.eval(t.value, env, module, owner, depth)
+            if isinstance(obj, (SelfObj, StateVal)):
+                self.state_writes.append('self.%s' % t.attr if isinstance(obj, SelfObj) else '%s.%s' % (obj.text, t.attr))
+                return
         raise AnalysisError('assignment target not supported by the symbolic evaluator: `%s`' % short(t))
 
     def iterate(self, v):
@@ -689,6 +772,11 @@ class Interp(object):
             return list(v)
         if isinstance(v, PNode):
             return list(v.children)
+        if isinstance(v, GenVal):
+            if v.items is None:
+                v.items = list(v.thunk())
+                return list(v.items)
+            return []          # a generator is exhausted after its first traversal
         if isinstance(v, dict):
             return list(v.keys())
         if isinstance(v, str):
@@ -832,10 +920,15 @@ class Interp(object):
             k, v = self.idx.lookup_attr(obj.ci, attr)
             if v is not None:
                 return Opaque('%s.%s' % (obj.ci.name, attr))
-            return Opaque('self.%s' % attr)
+            if isinstance(obj, SelfObj):
+                self.state_reads.append(attr)
+                return StateVal('self.%s' % attr)
+            return Opaque('%s.%s' % (obj.ci.name, attr))
         if isinstance(obj, External):
             return External(obj.dotted + '.' + attr)
         if isinstance(obj, (list, StrTok, str, dict, DictSym, tuple, set, PNode)):
+            return BoundMethod(obj, attr)
+        if isinstance(obj, StateVal):
             return BoundMethod(obj, attr)
         if isinstance(obj, (Opaque, FuncSym)):
             return Opaque('%s.%s' % (getattr(obj, 'text', '?'), attr))
@@ -846,6 +939,8 @@ class Interp(object):
     def subscript(self, obj, key, node):
         if isinstance(obj, PNode):
             obj = obj.children
+        if isinstance(obj, (list, dict)):
+            self._touch(obj)
         if isinstance(obj, (list, tuple, str)):
             if isinstance(key, int) and not isinstance(key, bool):
                 try:
@@ -869,6 +964,8 @@ class Interp(object):
             return self.space.lookup(obj.role, key)
         if isinstance(obj, StrTok):
             return StrTok(obj.base, obj.ops + ('[%s]' % (key,),))
+        if isinstance(obj, StateVal):
+            return StateVal('%s[...]' % obj.text)
         if isinstance(obj, Opaque):
             return Opaque('%s[...]' % obj.text)
         raise AnalysisError('subscript not supported: `%s`' % short(node))
@@ -1044,6 +1141,8 @@ class Interp(object):
             if d.endswith('.MathArray'):
                 return ArrayVal('MathArray', args[0] if args else None)
             return Opaque('%s(...)' % d)
+        if isinstance(f, StateVal):
+            return StateVal('%s(...)' % f.text)
         if isinstance(f, (Opaque, Num)):
             return Opaque('%s(...)' % f.text)
         raise AnalysisError('call not supported by the symbolic evaluator: `%s`' % short(node))
@@ -1133,7 +1232,9 @@ class Interp(object):
             return self.truth(args[0])
         if name in ('print',):
             return None
-        if name in ('set', 'sorted', 'dict', 'max', 'min', 'repr', 'type', 'id', 'hasattr', 'callable', 'map', 'filter'):
+        if name == 'hasattr' and len(args) == 2:
+            return Unknown(('hasattr', show(args[0]), show(args[1])))
+        if name in ('set', 'sorted', 'dict', 'max', 'min', 'repr', 'type', 'id', 'callable', 'map', 'filter'):
             return Opaque('%s(...)' % name)
         if name.endswith('Error') or name.endswith('Exception'):
             return ExcVal(name)
@@ -1179,11 +1280,17 @@ class Interp(object):
         return False
 
     def method(self, recv, name, args, kwargs, node, module, depth):
+        if isinstance(recv, StateVal):
+            if name in ('setdefault', 'update', 'append', 'add', 'pop', 'clear', 'insert', 'extend', 'remove', 'discard', '__setitem__'):
+                self.state_writes.append(recv.text)
+            return StateVal('%s.%s(...)' % (recv.text, name))
         if isinstance(recv, SelfObj):
             f = self.idx.lookup(recv.ci, name)
             if f is None:
                 raise AnalysisError('method %s not found' % name)
             return self.call_function(f, args, kwargs, depth + 1, bound=recv)
+        if isinstance(recv, (list, dict)):
+            self._touch(recv)
         if isinstance(recv, list):
             if name == 'pop' and len(args) <= 1:
                 if not recv:
@@ -1247,6 +1354,11 @@ class Interp(object):
             if name == 'get' and args:
                 return self.subscript(recv, args[0], node)
         raise AnalysisError('method call not supported by the symbolic evaluator: `%s`' % short(node))
+
+
+def _is_generator(fn):
+    from ..index import walk_own
+    return any(isinstance(n, (ast.Yield, ast.YieldFrom)) for n in walk_own(fn))
 
 
 def _as_load(t):
